@@ -476,7 +476,13 @@ class Name(str):
         if isinstance(x, str) and type(x) is str and len(x) == 1 and x in ",|()[]{}?*+\\^$ \t\n":
             return False
         raise Unsupported("unmodelled string operation on an opaque name")
-    split = lower = upper = strip = replace = find = index = isdigit = removeprefix = _unsup
+    split = lower = upper = strip = replace = find = index = isdigit = _unsup
+
+    def removeprefix(self, p):
+        # decided by the category like startswith: a name that does not begin with p is returned unchanged
+        if self.startswith(p) is False:
+            return self
+        raise Unsupported("Name.removeprefix of a prefix the name may have")
     lstrip = rstrip = partition = rpartition = rsplit = count = _unsup
     capitalize = casefold = center = encode = expandtabs = format = format_map = isalnum = isalpha = isascii = isdecimal = _unsup
     isidentifier = islower = isnumeric = isprintable = isspace = istitle = isupper = ljust = rfind = rindex = rjust = _unsup
